@@ -846,3 +846,50 @@ Proof. exact plan_history_finished_implies_scratch. Qed.
 
 Example C01_ustat_later_uF9 : ustat_later_b uF9 = true.
 Proof. vm_compute. reflexivity. Qed.
+
+(* ------------------------------------------------------------------------------------------ *)
+(* Dynamic plans: the full statement holds for a repaired engine (model/EnginePlanFix.v)       *)
+(* ------------------------------------------------------------------------------------------ *)
+From SV Require Import model.EnginePlanFix proofs.EnginePlanFixProofs.
+
+(* The engine of EnginePlan.v with two repairs -- R1: an input is available only through a
+   TRUSTED SUCCEEDED producer (F9 = D43); R2: a SUCCEEDED step one of whose inputs is not
+   available is made PENDING when it gets its turn (D4) -- and without the forgetting of the
+   cleanup pass.  For ALL programs, ALL plan behaviours (which steps a step defines, as a function
+   of what it read), ALL well-formed universes whose static declarations feed later steps only,
+   and ALL finite histories of worlds (sources changed, deleted, restored, plan scripts switched:
+   children dropped, re-added and recycled with state, sub-plans blocked and unblocked): the last
+   build has the trusted region (the workflow that the plans define), the step states and the
+   output contents of building the last world on nothing.  Invariant GInv for every stored step,
+   attached or not: valid traces, K, links = what the traced run defined (proofs/
+   EnginePlanFixProofs.v). *)
+Definition C01_plan_full_for_repaired_engine : Prop :=
+  forall run plan (U : universe), wf_u U = true -> ustat_later_b U = true ->
+    C01_full_for (p_empty U) (build_world_r run plan U) (same_result_p U).
+
+Theorem C01_plan_full_repaired : C01_plan_full_for_repaired_engine.
+Proof. intros run plan U H1 H2 ws w. exact (repaired_plan_full run plan U H1 H2 ws w). Qed.
+
+(* every build of the repaired engine, from every state that builds reach, ends finished *)
+Theorem C01_plan_repaired_build_ends_finished :
+  forall run plan (U : universe) (ws : list world) (w : world),
+    wf_u U = true -> ustat_later_b U = true ->
+    Finished_p run plan U
+      (build_world_r run plan U w (fold_left (fun s x => build_world_r run plan U x s) ws (p_empty U))).
+Proof.
+  intros run plan U ws w H1 H2.
+  exact (proj1 (proj2 (build_world_r_ok run plan U (wf_u_WFU U H1) (ustat_later_b_ok U H2) w _
+           (history_ginv run plan U (wf_u_WFU U H1) (ustat_later_b_ok U H2) ws _ (empty_ginv run plan U))))).
+Qed.
+
+(* on the two histories that refute the engine as the code has it, the repaired engine agrees
+   with the build from scratch (F9: the consumer of the blocked sub-plan's product is reset; D4:
+   the consumer of the dropped producer is reset, and runs again after the producer is back) *)
+Example C01_repaired_engine_on_the_refuting_histories :
+  let brF9 := build_world_r mix_run (plan_tab tabF9) uF9 in
+  let brD4 := build_world_r mix_run (plan_tab tabD4) uF9 in
+  same_result_pb uF9 (brF9 wF9b (brF9 wF9a (p_empty uF9))) (brF9 wF9b (p_empty uF9)) = true /\
+  same_result_pb uF9 (brD4 (wD4 2) (brD4 (wD4 1) (p_empty uF9))) (brD4 (wD4 2) (p_empty uF9)) = true /\
+  same_result_pb uF9 (brD4 (wD4 1) (brD4 (wD4 2) (brD4 (wD4 1) (p_empty uF9)))) (brD4 (wD4 1) (p_empty uF9)) = true /\
+  is_succ (stt (pbase (brF9 wF9b (brF9 wF9a (p_empty uF9)))) 4) = false.
+Proof. vm_compute. repeat split; reflexivity. Qed.
